@@ -96,11 +96,11 @@ DoneOnlyIfEnded == done => ~topen
 Kinds == {"pub1", "pub2", "sub", "unsub", "ping", "connect", "disconnect", "rconnect", "rdisconnect"}
 LocsOf(k) == CASE k = "pub2" -> {"atRLock", "waitAck", "waitComp"}
                [] k \in {"pub1", "sub", "unsub", "ping"} -> {"atRLock", "waitAck", "handlerBusy"}
-               [] k = "connect" -> {"waitConnack"}
+               [] k = "connect" -> {"waitConnack", "connectWrite"}
                [] k = "disconnect" -> {"atRLock", "handlerBusy", "fromHandler"}
                [] k = "rconnect" -> {"dialFailing", "waitConnack"}
                [] OTHER -> {"loopDialing", "loopConnected"}
-Causes == {"ctxCancel", "ctxDeadline", "localClose", "peerClose", "malformed"}
+Causes == {"ctxCancel", "ctxDeadline", "localClose", "peerClose", "malformed", "deadTransport"}
 Applicable(k, l, cause) ==
   /\ (k = "rdisconnect" => cause = "none")
   /\ (k = "rconnect" => cause \in {"ctxCancel", "ctxDeadline"})
@@ -109,12 +109,14 @@ Applicable(k, l, cause) ==
   \* Done() cannot be closed: a waiting call is released by its context only; Disconnect itself does not
   \* wait for the reader (it writes DISCONNECT and closes the transport)
   /\ (l \in {"handlerBusy", "fromHandler"} => cause \in {"ctxCancel", "ctxDeadline"})
+  \* the transport dies while CONNECT is being written: Connect fails, and the connection has ended (Done() closed)
+  /\ (l = "connectWrite" <=> cause = "deadTransport")
 Cases == {[k |-> k, l |-> l, cause |-> cause,
            \* what the statement demands: the call returns; with which error class; is Done() closed afterwards
            \* (Disconnect has no waiting location of its own besides the lock: with the handler busy it simply returns)
            cls |-> CASE k = "disconnect" /\ l \in {"handlerBusy", "fromHandler"} -> "any"
                      [] cause = "ctxCancel" -> "canceled" [] cause = "ctxDeadline" -> "deadline" [] cause = "none" -> "any" [] OTHER -> "error",
-           done |-> cause \in {"localClose", "peerClose", "malformed"}] :
+           done |-> cause \in {"localClose", "peerClose", "malformed", "deadTransport"}] :
           k \in Kinds, l \in UNION {LocsOf(x) : x \in Kinds}, cause \in Causes \cup {"none"}}
 CaseSet == {x \in Cases : x.l \in LocsOf(x.k) /\ Applicable(x.k, x.l, x.cause) /\ (x.cause = "none" <=> x.k = "rdisconnect")}
 ASSUME ndJsonSerialize("blocking_cases.ndjson", SetToSeq(CaseSet))
